@@ -64,8 +64,8 @@ pub fn run(ctx: &Ctx) {
     ctx.assume("numbers are compared bit-exactly");
     let avoid = geom::active_switches(&|s| ctx.avoid(s));
     let cases = match ctx.tier {
-        Tier::Quick => 4000,
-        Tier::Thorough => 100000,
+        Tier::Quick => 30000,
+        Tier::Thorough => 600000,
     };
     let enc = |c: &EditCase| serde_json::to_value(c).unwrap_or(Value::Null);
     let cfg = GenCfg { edge_refs: 1, edge_cells: 1, ..GenCfg::default() };
